@@ -6,7 +6,7 @@ the compiler's table only grows
 -/
 namespace Marwood.Lemmas.CompileCorrect2
 open Marwood Marwood.Vm Marwood.Lemmas.CompileCorrect
-open Marwood.Spec.Eval (Val Prim Cell Env)
+open Marwood.Spec.Eval (Val Prim Cell Env quoteVal)
 
 variable {H : Type} {ops : HeapOps H} {D : RepData2 ops}
 
@@ -46,8 +46,65 @@ theorem VR2.not_envptr (L : Laws2 D) {W : World} {h : H} {S : Array Cell} {v : V
 
 /-- only the store changed -/
 theorem Ext2.storeOnly (L : Laws2 D) (h : H) {S S' : Array Cell} (x : StoreExt S S') : Ext2 D h S h S' :=
-  ⟨x, fun _ _ y => L.vr_store _ _ _ _ _ x y, fun _ y => ⟨y, fun _ => rfl, rfl, rfl⟩, fun _ _ _ y => y,
-   fun _ _ _ _ y => y, fun _ _ v y z => ⟨v, y, z⟩⟩
+  ⟨x, fun _ _ y => L.vr_store _ _ _ _ _ x y,
+   fun _ _ y => DatumAt.transport (fun _ _ z => L.vr_store _ _ _ _ _ x z) (fun _ _ _ z => z) (fun _ _ z => z) y,
+   fun _ y => ⟨y, fun _ => rfl, rfl, rfl⟩, fun _ _ _ y => y, fun _ _ _ _ y => y, fun _ _ v y z => ⟨v, y, z⟩⟩
+
+/-- a store all of whose cells are kept is an extension -/
+theorem StoreExt.ofStorePrefix {S S' : Array Cell} (h : StorePrefix S S') : StoreExt S S' := by
+  refine ⟨?_, fun l c hc _ => h l c hc, fun l v hv => ⟨v, h l _ hv⟩⟩
+  rcases Nat.lt_or_ge S'.size S.size with h1 | h1
+  · have h2 : S[S'.size]? = some S[S'.size] := Array.getElem?_eq_getElem h1
+    have h3 := h _ _ h2
+    simp at h3
+  · exact h1
+
+/-- the laws of `CompileCorrect2Quote.lean` follow from `Laws2` -/
+theorem quoteLaws_of (L : Laws2 D) : QuoteLaws D.toRepData D.vecElems where
+  vr_pair := L.vr_pair
+  vr_vec := L.vr_vec
+  vr_store := fun _ _ _ _ _ hp x => L.vr_store _ _ _ _ _ (StoreExt.ofStorePrefix hp) x
+  srx_store := fun _ _ _ hp x => L.srx_store _ _ _ (StoreExt.ofStorePrefix hp) x
+
+/-- the value of a quoted datum is never a procedure -/
+theorem quoteVal_not_closure {d : Datum} {σ σ' : SSt} {w : Val} (h : quoteVal d σ = .ok w σ') :
+    ∀ a b c e, w ≠ .closure a b c e := by
+  intro a b c e hw
+  subst hw
+  cases d with
+  | pair x y =>
+    unfold quoteVal at h
+    obtain ⟨_, _, _, h⟩ := bind_ok_inv h
+    obtain ⟨_, _, _, h⟩ := bind_ok_inv h
+    change (Spec.Eval.allocCell _ >>= fun l => pure (Val.pair l)) _ = _ at h
+    obtain ⟨_, _, _, h⟩ := bind_ok_inv h
+    cases (pure_ok_inv h).1
+  | vec x =>
+    unfold quoteVal at h
+    obtain ⟨_, _, _, h⟩ := bind_ok_inv h
+    change (Spec.Eval.allocCell _ >>= fun l => pure (Val.vec l)) _ = _ at h
+    obtain ⟨_, _, _, h⟩ := bind_ok_inv h
+    cases (pure_ok_inv h).1
+  | num n =>
+    unfold quoteVal at h
+    cases hn : Spec.Eval.intOfNum n with
+    | none => rw [hn] at h; cases h
+    | some i => rw [hn] at h; cases (pure_ok_inv h).1
+  | bool x => unfold quoteVal at h; cases (pure_ok_inv h).1
+  | char x => unfold quoteVal at h; cases (pure_ok_inv h).1
+  | nil => unfold quoteVal at h; cases (pure_ok_inv h).1
+  | str x => unfold quoteVal at h; cases (pure_ok_inv h).1
+  | sym x => unfold quoteVal at h; cases (pure_ok_inv h).1
+  | void => unfold quoteVal at h; cases (pure_ok_inv h).1
+  | undefined => unfold quoteVal at h; cases (pure_ok_inv h).1
+  | procedure x => unfold quoteVal at h; cases h
+  | macro_ => unfold quoteVal at h; cases h
+  | continuation => unfold quoteVal at h; cases h
+
+theorem VR2.of_quote {W : World} {h : H} {S : Array Cell} {v : VCell} {d : Datum} {σ σ' : SSt} {w : Val}
+    (hq : quoteVal d σ = .ok w σ') (hv : D.VR h S v w) : VR2 D W h S v w := by
+  have := quoteVal_not_closure hq
+  cases w <;> first | exact hv | exact absurd rfl (this _ _ _ _)
 
 /-! ## operands on the stack -/
 
@@ -198,19 +255,19 @@ theorem map_get {α β : Type} (f : α → β) (l : List α) (j : Nat) (b : β) 
 
 /-! ## the compiler's table only grows -/
 
-def MonoOK (f : Nat) : Prop :=
-  (∀ c ns t e st base st' code, F2 f c ns t e → compileExpr f st c base t e = .ok (st', code) →
+def MonoOK (G : Text → Prop) (f : Nat) : Prop :=
+  (∀ c ns t e st base st' code, F2 G f c ns t e → compileExpr f st c base t e = .ok (st', code) →
     st.lambdas <+: st'.lambdas) ∧
-  (∀ c ns e st base st' code k, F2L f c ns e → compileArgs f st c base e = .ok (st', code, k) →
+  (∀ c ns e st base st' code k, F2L G f c ns e → compileArgs f st c base e = .ok (st', code, k) →
     st.lambdas <+: st'.lambdas) ∧
-  (∀ c ns e st base st' code, F2B f c ns e → compileBody f st c base e = .ok (st', code) →
+  (∀ c ns e st base st' code, F2B G f c ns e → compileBody f st c base e = .ok (st', code) →
     st.lambdas <+: st'.lambdas)
 
-theorem monoOK : ∀ f, MonoOK f
+theorem monoOK (G : Text → Prop) : ∀ f, MonoOK G f
   | 0 => ⟨(by intro c ns t e st base st' code hf; cases hf), (by intro c ns e st base st' code k hf; cases hf),
           (by intro c ns e st base st' code hf; cases hf)⟩
   | f + 1 => by
-    have ih := monoOK f
+    have ih := monoOK G f
     refine ⟨?_, ?_, ?_⟩
     · intro c ns t e st base st' code hf hc
       cases hf with
@@ -218,9 +275,10 @@ theorem monoOK : ∀ f, MonoOK f
       | char ch => rw [(compile_const_inv2 (.inr (.inl ⟨ch, rfl⟩)) hc).2]; exact List.prefix_refl _
       | num n => rw [(compile_const_inv2 (.inr (.inr (.inl ⟨n, rfl⟩))) hc).2]; exact List.prefix_refl _
       | str s => rw [(compile_const_inv2 (.inr (.inr (.inr ⟨s, rfl⟩))) hc).2]; exact List.prefix_refl _
-      | quote d rest _ => rw [(compile_quote_inv2 hc).2]; exact List.prefix_refl _
+      | quote d rest => rw [(compile_quote_inv2 hc).2]; exact List.prefix_refl _
+      | vecc e => rw [(compile_vec_inv2 hc).2]; exact List.prefix_refl _
       | sym x _ => rw [(compile_sym_inv2 hc).2]; exact List.prefix_refl _
-      | setBang x e _ he =>
+      | setBang x e _ _ he =>
         obtain ⟨code1, h1, _⟩ := compile_setBang_inv2 hc
         exact ih.1 _ _ _ _ _ _ _ _ he h1
       | if2 tst cn h1 h2 =>
